@@ -262,23 +262,33 @@ def _run(case, ctx, sim):
             fetches["n"] += 1
             return orig_fetch()
         fut.start_fetching_next_page = counting_fetch
+        base_events = len(outs[0].events)
         actor = sim.spawn(consume)
         sim.settle()
         for _w in range(2 * len(pages) + 4):
             if actor.done:
                 break
-            before = (fetches["n"], len(outs[0].events))
+            # a page fetch that was already outstanding when the window began must have its outcome when it ends
+            # (outcomes are counted on the future: the client thread itself may sit in pool.borrow_connection for
+            # 2 s per busy host although the outcome exists)
+            done_before = len(outs[0].events) - base_events
+            outstanding = fetches["n"] - done_before
             sim.advance(t + EPS)
             if actor.done:
                 break
-            # progress = a new page fetch was started or an outcome was delivered to the future (the client
-            # thread itself may sit in pool.borrow_connection for 2 s per busy host after the outcome exists)
-            if (fetches["n"], len(outs[0].events)) == before:
+            if outstanding > 0 and len(outs[0].events) - base_events == done_before:
                 ctx.fail(["C15.unbounded", "later-page"],
                          "iteration from a client thread made no progress within timeout %s + %.3f: the fetch of page %d "
                          "has no outcome (attempts per page %r)" % (t, EPS, max(seen_pages), pos))
                 later_silent = True
                 break
+        if not actor.done and not later_silent:
+            # every fetch had its outcome in time; the client thread can only still be waiting for stream ids
+            sim.advance(2.0 * n * (2 * len(pages) + 4) + 1.0)
+            if not actor.done:
+                ctx.fail(["C15.unbounded", "later-page", "client-thread-never-returns"],
+                         "every page fetch got its outcome but the iterating client thread never returned "
+                         "(fetches %d, outcomes %d)" % (fetches["n"], len(outs[0].events) - base_events))
         if actor.done:
             ctx.label("iterate:finished:%s" % ("error" if "exc" in actor.box else "rows"))
     else:
